@@ -12,6 +12,12 @@ def enc (cs : List Char) : Bytes := cs.flatMap String.utf8EncodeChar
 
 def Valid (b : Bytes) : Prop := ∃ cs : List Char, b = enc cs
 
+/-- UTF-16 encoding of one scalar value (the definition of UTF-16) -/
+def utf16Units (v : Nat) : List Nat :=
+  if v < 0x10000 then [v] else [0xD800 + (v - 0x10000) / 0x400, 0xDC00 + (v - 0x10000) % 0x400]
+
+def encodeUtf16 (cs : List Char) : List Nat := cs.flatMap fun c => utf16Units c.val.toNat
+
 namespace Spec
 
 /-- outcome of a `String` method -/
